@@ -415,6 +415,11 @@ func c01Big(exp int, sizes []int) string {
 		chunks++
 		members += e.RealMemberCount
 		first = false
+		// a delivered record belongs to its consumer (the restore routine renames e.Key for hash-tag
+		// replacement and for some cloud sources): what the consumer does to it must not show in
+		// the records delivered later
+		e.Key = []byte("renamed-by-the-consumer")
+		e.DB = 77
 		if len(body) >= len(hv.Raw) {
 			if chunks == 1 && e.RealMemberCount != 0 {
 				return fail("chunk-protocol", "single record flagged as chunk")
